@@ -604,7 +604,12 @@ impl Value {
                                     .unwrap_or(Value::Null)
                                     .into(),
                                 (Value::String(str), Value::Int(idx)) => {
-                                    match str.get(idx as usize..(idx + 1) as usize) {
+                                    // a negative index or one whose successor overflows is
+                                    // simply out of range
+                                    let range = usize::try_from(idx)
+                                        .ok()
+                                        .and_then(|start| Some(start..start.checked_add(1)?));
+                                    match range.and_then(|range| str.get(range)) {
                                         None => Ok(Value::Null),
                                         Some(str) => Ok(Value::String(str.to_string().into())),
                                     }
@@ -763,11 +768,14 @@ impl Value {
                             ctx.add_variable_from_value(&comprehension.accu_var, accu);
                         }
                     }
-                    t => todo!("Support {t:?}"),
+                    t => return Err(ExecutionError::unsupported_target_type(t)),
                 }
                 Value::resolve(comprehension.result.deref(), &ctx)
             }
-            Expr::Struct(_) => todo!("Support structs!"),
+            Expr::Struct(s) => Err(ExecutionError::function_error(
+                &s.type_name,
+                "message construction is not supported",
+            )),
             Expr::Unspecified => panic!("Can't evaluate Unspecified Expr"),
         }
     }
